@@ -174,7 +174,7 @@ pub fn generate(thorough: bool, seed: u64, out: &mut dyn Write) {
         let o = GenOpts {
             max_meshes: if i % 5 == 0 { 4 } else { 2 },
             max_vertices: if i % 9 == 0 { 300 } else { 60 },
-            combos: WCOMBOS,
+            combos: if i % 12 == 8 { D9COMBOS } else { WCOMBOS },
             v5_only: true,
             canonical: true,
         };
